@@ -25,7 +25,7 @@ QUICK_WINDOWS = ["quick_a", "quick_b", "quick_c", "quick_res"]
 THOROUGH_WINDOWS = QUICK_WINDOWS + ["thorough_a", "thorough_b", "thorough_res"]
 
 ASSUMPTIONS = [
-    "every struct type has the int fields A, B (always 1, so zero-skip never applies) declared before its link fields; link fields carry `required` when populated in every instance, else `exist`",
+    "every struct type has the int fields A, B (always 1, so zero-skip never applies); its link fields stand after them, between them or in front of them (one case in three each; clauses are brought into the contract's order - node, then field - before they are judged, the order of clauses being C02's subject); link fields carry `required` when populated in every instance, else `exist`",
     "where a rule is written decides its text (tag to=5~9, typed set to=6~9, unscoped set to=7~9, ...), so the source of each clause is observable; per-call and global functions always report (level, rule text)",
     "globals are registered once per harness process before any call: p_glob (new name) and le (shadows the built-in)",
     "NOT DECIDED by the property, left nondeterministic in the spec: an unscoped entry for a field of the outermost struct whose type also has a non-empty typed set (both the typed/tag rule and the unscoped rule are accepted)",
@@ -121,6 +121,7 @@ def run(ctx):
             cand(dict(panic=True, rootkind=scn["rootkind"]), "panic %r on %s" % (r["panic"], json.dumps(scn)), rep)
             continue
         obs, other = fs.s_abstract(fs.split_clauses(r), names, meta)
+        obs = fs.s_canonical(obs, meta)
         if src == "gen":
             alts = s["alts"]
             # non-trivial: a programmatic set or a per-call function really changes the outcome w.r.t. the tags alone
@@ -189,6 +190,7 @@ def replay(ctx):
         ctx.candidate(dict(panic=True, rootkind=scn["rootkind"]), "panic %r" % res["panic"], r)
     else:
         obs, other = fs.s_abstract(fs.split_clauses(res), names, meta)
+        obs = fs.s_canonical(obs, meta)
         bad = fs.judge(ctx, "Judge_Scope", [dict(id=c["id"], scn=scn, obs=obs)], "replay", shards=1)
         if bad or other:
             alts = list(bad.values())[0]["alts"] if bad else []
